@@ -6,6 +6,7 @@ import itertools
 import numpy as np
 
 from omv.core import ir, models
+from omv import lib_c24_special as special
 
 ID = 'C24'
 LEVEL = 'exploration'
@@ -16,7 +17,12 @@ RULE = ('models = every DAG on 3 (quick) / 4 (thorough, <= 2 sources per compone
         'independent sources where each component reads a non-empty set of <= 2 earlier nodes; x every '
         'non-empty set of design variables x every response set of size <= 2 x linear-solver stack '
         '{RunOnce, LNBGS, Direct, Newton subgroup} x mode {fwd, rev} x linear-constraint flag; a slice '
-        'is also optimised with SLSQP; non-trivial = at least one component is irrelevant to the '
+        'is also optimised with SLSQP; plus four hand-built families (omv/lib_c24_special.py: two-state '
+        'implicit component with sparse partials x coupling pattern x response x solver stack x mode; '
+        'every compute_totals query history of length <= 2 (3 thorough) on groups that approximate '
+        'their totals, with coloring and indexed design variables; compute_totals aborted by a '
+        'non-converging linear solver then continued; SLSQP with pre/iter/post splitting x design '
+        'variable kinds) each compared with a closed form; non-trivial = at least one component is irrelevant to the '
         'chosen (design variables, responses) pair; each configuration is enumerated once')
 LEVEL_TEXT = ('For every configuration two real Problems are built from the same IR, one with the '
               'relevance machinery active and one with openmdao.utils.relevance._no_relevance = True; '
@@ -82,6 +88,11 @@ def cases(tier, seed):
                         out.append({'dag': dag, 'dvs': dvs, 'resp': resp, 'stack': stack,
                                     'mode': 'rev' if j % 2 else 'fwd', 'linear': False,
                                     'kinds': 'mix', 'opt': False, 'palette': pal})
+    for c in special.families(tier):
+        c = dict(c)
+        c['special'] = True
+        c['palette'] = pal
+        out.append(c)
     return out
 
 
@@ -169,6 +180,8 @@ def _run(spec, mode, no_rel, opt=False):
 
 
 def check_case(case):
+    if case.get('special'):
+        return special.check(case)
     spec = _spec(case)
     cls = '%s/%s/%s/dv=%s/resp=%s/%s%s' % (
         case['stack'], case['mode'], case['kinds'], '+'.join(case['dvs']), '+'.join(case['resp']),
